@@ -727,6 +727,27 @@ func (w *wrapperCtx) checkBroadcast() {
 					}
 				}
 			}
+			// position along the parameter-set (last) dimension: i % own extent
+			{
+				last := int64(len(ps.Dims))
+				pv, unk := w.vecElem(args[0], last, call)
+				pkey := okey + ":set"
+				if unk != "" || len(pv) == 0 {
+					w.r.Undecided("R04.3", pkey, w.p.Pos(call.Pos()), "parameter-set index of a table parameter undetermined: "+unk)
+				}
+				for _, v := range pv {
+					bo, ok := v.(*ssa.BinOp)
+					if !ok || bo.Op != token.REM || !w.isI(bo.X) {
+						w.r.Fail("R04.3", pkey, w.p.Pos(call.Pos()), fmt.Sprintf("table parameter %s is not cut at parameter set (i %% number of sets) of the goroutine's own cell index: the index is %s", ps.Name, describeIdx(v)))
+						continue
+					}
+					if why := w.isExtentOfDim(bo.Y, recv, last, true); why != "" {
+						w.r.Fail("R04.3", pkey, w.p.Pos(call.Pos()), "table parameter broadcast base: "+why)
+					} else {
+						w.r.OK("R04.3", fmt.Sprintf("%s: table %s cut at set i %% own last extent", key, ps.Name))
+					}
+				}
+			}
 			// position: zeros along table dims
 			for di := range ps.Dims {
 				pv, unk := w.vecElem(args[0], int64(di), call)
@@ -1025,4 +1046,19 @@ func (w *wrapperCtx) checkKernelArgs() {
 			w.r.OK("R04.5", fmt.Sprintf("%s: kernel arg %d = outputs[i, %d, :]", key, ob+k, k))
 		}
 	}
+}
+
+func describeIdx(v ssa.Value) string {
+	if bo, ok := v.(*ssa.BinOp); ok {
+		return describeIdx(bo.X) + " " + bo.Op.String() + " " + describeIdx(bo.Y)
+	}
+	if u, ok := v.(*ssa.UnOp); ok && u.Op == token.MUL {
+		if fv, ok := u.X.(*ssa.FreeVar); ok {
+			return "captured " + fv.Name()
+		}
+	}
+	if p, ok := v.(*ssa.Parameter); ok {
+		return p.Name()
+	}
+	return v.Name()
 }
